@@ -221,7 +221,7 @@ func zero(t types.Type) value {
 		case types.String:
 			return ""
 		case types.UnsafePointer:
-			return unsafe.Pointer(nil)
+			return uptr{}
 		default:
 			panic(fmt.Sprint("zero for unexpected type:", t))
 		}
@@ -308,7 +308,7 @@ func slice(i *interpreter, x, lo, hi, max value) value {
 		if l < 0 || h > int64(len(x)) || l > h {
 			panic(targetPanic{fmt.Sprintf("runtime error: slice bounds out of range [%d:%d] with length %d", l, h, len(x))})
 		}
-		return mkstr([]value(x[l:h]))
+		return x[l:h]
 	case []value:
 		if l < 0 || h > m || l > h || m > int64(cap(x)) {
 			panic(targetPanic{fmt.Sprintf("runtime error: slice bounds out of range [%d:%d:%d] with capacity %d", l, h, m, cap(x))})
@@ -1155,7 +1155,7 @@ func rangeIter(i *interpreter, x value, t types.Type) iter {
 // cases we have to consider.
 func widen(x value) value {
 	switch y := x.(type) {
-	case bool, int64, uint64, float64, complex128, string, unsafe.Pointer:
+	case bool, int64, uint64, float64, complex128, string, unsafe.Pointer, uptr:
 		return x
 	case int:
 		return int64(y)
@@ -1226,7 +1226,7 @@ func conv(i *interpreter, t_dst, t_src types.Type, x value) value {
 		case *types.Basic:
 			// *value to unsafe.Pointer?
 			if ut_dst.Kind() == types.UnsafePointer {
-				return unsafe.Pointer(x.(*value))
+				return uptr{p: x.(*value), t: ut_src.Elem()}
 			}
 		}
 
@@ -1283,6 +1283,21 @@ func conv(i *interpreter, t_dst, t_src types.Type, x value) value {
 				}
 			}
 			break // fail: no other conversions for string
+		}
+
+		// unsafe.Pointer -> uintptr / unsafe.Pointer
+		if ut_src.Kind() == types.UnsafePointer {
+			if db, ok := ut_dst.(*types.Basic); ok {
+				switch db.Kind() {
+				case types.Uintptr:
+					if u, ok := x.(uptr); ok {
+						return i.ptrAddr(u)
+					}
+					return uintptr(0)
+				case types.UnsafePointer:
+					return x
+				}
+			}
 		}
 
 		// unsafe.Pointer -> *value
